@@ -1118,12 +1118,18 @@ class Interp:
             self.flush_kinds.add("delete")
             self.orphan_of[ch.idx] = self._unparent_from
 
+    def _settle(self, p):
+        """load p.children now, so that the autoflush of that load happens before eligibility is judged"""
+        if p.state == "S" and "children" not in p.real.__dict__:
+            self.do(lambda: p.real.children)
+
     def op_remove(self, a, b, c):
         if not self.U.has_o2m:
             return self.op_clearparent(a, b, c)
         p = self.pick(self.pool(lambda o: self.U.parentish(o.kind) and self.linkable(o) and self.model.children_of(o)), a)
         if p is None:
             return False
+        self._settle(p)
         kids = [k for k in self.model.children_of(p) if self.linkable(k)]
         ch = self.pick(kids, b)
         if ch is None or not self._can_unparent(ch):
@@ -1139,6 +1145,7 @@ class Interp:
         p = self.pick(self.pool(lambda o: self.U.parentish(o.kind) and self.linkable(o) and self.model.children_of(o)), a)
         if p is None:
             return False
+        self._settle(p)
         kids = self.model.children_of(p)
         if not all(self.linkable(k) and self._can_unparent(k) for k in kids) or not self._can_unparent_all(kids):
             return False
@@ -1160,6 +1167,7 @@ class Interp:
         p = self.pick(self.pool(lambda o: self.U.parentish(o.kind) and self.linkable(o)), a)
         if p is None:
             return False
+        self._settle(p)
         cands = self.pool(lambda o: self.U.childish(o.kind) and self.linkable(o) and o is not p)
         mask = (b << 4) | c
         chosen = [k for i, k in enumerate(cands) if mask >> i & 1]
@@ -1235,9 +1243,9 @@ class Interp:
                 return False
         if not self.U.cfg["fk_nullable"] and not self.U.casc_orphan:
             return False
+        self._preload_parent(ch)
         if ch.parent is not None and not self._can_unparent(ch):
             return False
-        self._preload_parent(ch)
         self.do(lambda: setattr(ch.real, "parent", None))
         if ch.parent is not None:
             p = ch.parent
